@@ -210,6 +210,7 @@ class C12(OutstationProp):
                            or x.startswith("Hattr") or x.startswith("Hdb34") or (x.startswith("Hiin:") and any(p.split("=")[0] != "7" or p.endswith("=1") for p in x[5:].split(",") if p != "-"))]
                     if bad and sol and sol[0][3] & 0x07 == 0:
                         fails.append(("write-rejection-not-reported", "WRITE with a rejected object header (%s) answered with IIN2 = 0" % bad[0][:20]))
+        fails += response_sequence_fails(impl, any_master)
         return fails
 
     def finding_signature(self, case, clause, desc):
